@@ -186,6 +186,7 @@ func RunCheck(o CheckOpts) int {
 	if o.TimeoutS > 0 {
 		timeout = time.Duration(o.TimeoutS) * time.Second
 	}
+	kfEarly := LoadKnownFindings(filepath.Join(o.Verif, "known_findings.json"))
 	results := make([]*OblResult, len(all))
 	var wg sync.WaitGroup
 	sem := make(chan struct{}, 6)
@@ -220,6 +221,9 @@ func RunCheck(o CheckOpts) int {
 			to := timeout
 			if ob.Kind == "cover" {
 				to = 1 * time.Second
+			}
+			if f := kfEarly.Match(o.Prop, id); f != nil && f.Status == "open" {
+				to = 5 * time.Second // a recorded open finding: expected to stay undischarged
 			}
 			res := Solve(dir, fmt.Sprintf("%d_%s", i, id), q, to, false)
 			r.Status, r.Backend, r.Ms, r.res = res.Status, res.Backend, res.Ms, res
@@ -389,6 +393,10 @@ func contractMentions(fc *FuncContract, prop string) bool {
 	for _, a := range fc.CallAsserts {
 		cs = append(cs, a.Clause)
 	}
+	for _, a := range fc.UpdateAsserts {
+		cs = append(cs, a.Clause)
+	}
+	cs = append(cs, fc.ReturnEnsures...)
 	for _, c := range cs {
 		if hasTagFor(c.Tags, prop) {
 			return true
@@ -456,7 +464,7 @@ func LoadKnownFindings(path string) *KnownFindings {
 func (k *KnownFindings) Match(prop, oblID string) *KnownFinding {
 	for i := range k.List {
 		f := &k.List[i]
-		if f.Property == prop && f.Obligation == oblID {
+		if f.Property == prop && (f.Obligation == oblID || f.Obligation == stripPos(oblID)) {
 			return f
 		}
 	}
@@ -508,4 +516,13 @@ func modelOf(dir string, w *World, r *OblResult) []string {
 		out = out[:200]
 	}
 	return out
+}
+
+// stripPos removes the "@line:col" / "@bN" position and conjunct suffix from an obligation id, so that known findings
+// are identified by function and clause rather than by source position.
+func stripPos(id string) string {
+	if k := strings.LastIndex(id, "@"); k >= 0 {
+		return id[:k]
+	}
+	return id
 }
